@@ -2,5 +2,6 @@
 pub mod engine;
 pub mod jobdrive;
 pub mod jobgen;
+pub mod jobmodel;
 pub mod props;
 pub mod sim;
